@@ -48,17 +48,23 @@ def report(ctx, key, text, probe_src, acceptable, got, msg, extra_case=None, kwa
     case = dict(text=text, acceptable=acceptable)
     if extra_case:
         case.update(extra_case)
+    sc = script(text, probe_src, acceptable, kwargs_src)
+    if extra_case and "warm" in extra_case:
+        # the case needs an EARLIER parse in the same process: the script performs it first
+        sc = sc.replace("from chartparse.chart import Chart\n", "from chartparse.chart import Chart\nChart.from_file(io.StringIO(%r))  # the earlier parse\n" % extra_case["warm"], 1)
     ctx.violation(
         key,
         case,
         msg,
         expected=acceptable if len(acceptable) != 1 else acceptable[0],
         observed=got,
-        script=script(text, probe_src, acceptable, kwargs_src),
+        script=sc,
     )
 
 
 def replay_text_case(case, probe, key, probe_src, msg="replayed case still fails"):
+    if "warm" in case:
+        run_probe(probe, case["warm"])
     got = run_probe(probe, case["text"])
     if got in case["acceptable"]:
         return []
